@@ -980,3 +980,63 @@ def r_selfmade(ctx, view, fixture=False):
                    ("len() = %s - %s; every yielding path moves its own cursor once under the guard, no other path moves a cursor%s" % (
                        cx, cy, ("; " + "; ".join(notes)) if notes else "")) if not bad else "; ".join(bad[:3]))
     return res
+
+
+# ------------------------------------------------------------------------------------------
+# R-LENDING: what an iterator has handed out by `&mut` is not touched again behind the borrower's back
+# ------------------------------------------------------------------------------------------
+def _has_mut_ref(ty):
+    if not isinstance(ty, dict):
+        return False
+    if ty.get("k") == "ref" and ty.get("mut"):
+        return True
+    for k in ("inner",):
+        if k in ty and _has_mut_ref(ty[k]):
+            return True
+    for k in ("args", "elems"):
+        for a in ty.get(k) or []:
+            if _has_mut_ref(a):
+                return True
+    return False
+
+
+def r_lending(ctx, view, only_types=None):
+    """R-LENDING.  `Iterator::Item` cannot borrow from the `&mut self` of `next`: a `&'a mut P` an iterator yields stays usable
+    for the whole borrow 'a of the queue - after further `next` calls, after `collect()`, after the iterator itself has been
+    dropped.  So an iterator type that yields `&mut` into the queue must not, in its destructor, read or write what those
+    references point to: the access aliases a live `&mut` (undefined behaviour; a genuine data race once the references are sent to a
+    scoped thread), and a rebuild done in the destructor is a rebuild done BEFORE the writes the caller still makes."""
+    prog = view.prog
+    fx = view.fx
+    ctx.cur = view
+    n = 0
+    for dr in impls_of(prog, "std::ops::Drop"):
+        T = dr["self_desc"]
+        if only_types and not only_types(T):
+            continue
+        it = impl_for(prog, IT, T)
+        if it is None:
+            continue
+        item = next((x.get("ty") for x in it["items"] if x.get("name") == "Item" and x.get("kind") == "Type"), None)
+        if not _has_mut_ref(item):
+            continue
+        d = method(prog, dr, "drop")
+        if d is None:
+            continue
+        n += 1
+        touched = []
+        for k in sorted(fx.reach(d.key)):
+            g = prog.fn(k)
+            if g is None:
+                continue
+            for e in fx.events(g):
+                if e["kind"] in ("mr", "mw", "mwraw") and e.get("comp") == "map":
+                    touched.append("%s in %s" % (e.get("name"), k.split("::")[-1]))
+                elif e["kind"] == "ext" and e.get("ci") is not None and e["ci"].cmp:
+                    touched.append("compares priorities in %s" % k.split("::")[-1])
+        touched = sorted(set(touched))
+        ctx.ob("R-LENDING", "%s:drop-leaves-yielded-entries-alone" % T, not touched, d.loc(),
+               "the destructor does not access the map entries" if not touched else
+               "the items (%s) outlive the iterator, yet its destructor accesses the entries they borrow: %s" % (
+                   (item or {}).get("s", "?"), "; ".join(touched)[:300]))
+    return n
